@@ -110,11 +110,8 @@ def tables_and_cursor(rep, idx, spec, table, obj, named):
             rep.unk("C02.4", site, f"self._next_addr = {ir.show(v)[:80]}", "unrecognised cursor update")
     # the tables are keyed by id(object): a second insertion of the same object must be refused, or two ranges
     # would share one table entry (and the object would be reported twice under one name)
-    from .c07 import guards_with_context
-    gs = guards_with_context(c.fi)
-    dup = ir.norm(ir.parse(f"id({obj}) in self.{table}"))
-    rep.check(any(t_ == dup and e_ == "ValueError" for t_, cs_, lp_, e_, ln_ in gs), "C02.4", site,
-              f"the same {obj} object cannot be added twice (ValueError)", f"no `if id({obj}) in self.{table}: raise ValueError`")
+    from .common import check_refusal
+    check_refusal(rep, "C02.4", c, f"the same {obj} object cannot be added twice (ValueError)", f"id({obj}) in self.{table}", "ValueError")
     # each of the three effects happens on every path that inserts (they post-dominate the insertion)
     fg = apirules.graph(idx, c.fi)
     g = fg.g
@@ -158,7 +155,11 @@ def compute_range(rep, idx):
     g = fg.g
     ret_nodes = [n.id for n in g.nodes if n.kind == "stmt" and isinstance(n.ast, ast.Return)]
     dom = g.dominators()
-    tests = {n.id: ir.norm(ir.from_ast(n.ast, {})) for n in g.nodes if n.kind == "test"}
+    # conditions with local aliases substituted (from the symbolic walk), matched to CFG test nodes by line
+    sym = {}
+    for cond, gen, ln in c.t.conds:
+        sym.setdefault(ln, c.norm(cond))
+    tests = {n.id: sym.get(n.lineno, ir.norm(ir.from_ast(n.ast, {}))) for n in g.nodes if n.kind == "test"}
 
     def raising_side(t):
         out = []
@@ -168,8 +169,9 @@ def compute_range(rep, idx):
                 if g.exit.id not in sub:
                     out.append(lab)
         return out
-    limit = ir.norm(ir.parse("1 << self.addr_width"))
-    alias = ir.norm(ir.parse("1 << self._addr_width"))
+    limit = c.parse("1 << self.addr_width")
+    top = c.norm(('bin', '+', args[0], size)) if len(args) >= 2 else None
+    ov_call = c.norm(('call', c.parse("self._ranges.overlaps"), (R,), ()))
     bound_ok = over_ok = False
     for t, e in tests.items():
         if not ret_nodes or any(t not in dom[r] for r in ret_nodes):
@@ -177,30 +179,41 @@ def compute_range(rep, idx):
         side = raising_side(t)
         parts = list(e[1]) if e[0] == 'or' else [e]
         for p in parts:
-            if p[0] == 'cmp' and p[1] in ('<', '<=') and p[2] in (limit, alias) and 'true' in side:
-                # limit < addr + size  (strict: a range may end exactly at the limit)
-                rhs = p[3]
-                if rhs[0] == 'lin' and any(ir.show(t_) == 'size' for t_, _ in rhs[2]):
-                    if p[1] == '<':
+            pos, pol = ir.split_neg(p)
+            # limit < addr + size  (strict: a range may end exactly at the limit); normalised as  lin(...) cmp const
+            if pos[0] == 'cmp' and pos[1] == '<' and top is not None:
+                strict = None
+                if pos[2] == limit and pos[3] == top:
+                    strict = pol                      # limit < top: strict;  not (limit < top) raising would be nonsense
+                    raises_when = pol
+                elif pos[2] == top and pos[3] == limit:
+                    # not (top < limit)  ==  limit <= top : the inclusive (wrong) comparison
+                    strict = False if not pol else None
+                    raises_when = pol
+                if strict is not None and (('true' in side) if raises_when else ('false' in side)):
+                    if strict:
                         bound_ok = True
                     else:
                         rep.bad("C02.6", site, "addr + size > 2**addr_width", "the bounds test uses >= : a range that ends exactly at the top of the "
                                 "address space would be rejected (exclusive upper bound compared inclusively)")
                         bound_ok = None
-        if e == ('name', 'overlaps') and 'true' in side:
-            over_ok = True
+            # non-empty overlaps raises:  X | len(X) > 0 | len(X) != 0 | not (not X)
+            nonempty = None
+            if pos == ov_call:
+                nonempty = pol
+            elif pos[0] == 'cmp' and pos[1] == '<' and pos[2] == ('const', 0) and pos[3] == ('call', ('name', 'len'), (ov_call,), ()):
+                nonempty = pol
+            elif pos[0] == 'cmp' and pos[1] == '==' and pos[2] == ('call', ('name', 'len'), (ov_call,), ()) and pos[3] == ('const', 0):
+                nonempty = not pol
+            if nonempty is not None and (('true' in side) if nonempty else ('false' in side)):
+                over_ok = True
     if bound_ok is not None:
         rep.check(bool(bound_ok), "C02.5", site, "every returned range passed the bounds test (addr + size > 2**addr_width raises)",
                   "no dominating bounds test with a raising failure edge found")
         if bound_ok:
             rep.ok("C02.6", site, "bounds comparison is strict: U > X (exclusive upper bound against exclusive limit)", "addr + size > 1 << addr_width")
-    ov = [x for x, gen, ln in c.calls_named("overlaps")]
-    ov_ok = over_ok and any(ov_[1] == c.parse("self._ranges.overlaps") and ov_[2] == (R,) for ov_ in ov)
-    # `overlaps = self._ranges.overlaps(addr_range)` is a plain assignment, visible through substitution:
-    fg_txt = [fg.text(n.id) for n in g.nodes if n.kind == "stmt"]
-    has_call = any("self._ranges.overlaps(" in t for t in fg_txt)
-    rep.check(bool(over_ok and has_call), "C02.5", site, "every returned range passed the overlap test (non-empty overlaps raises)",
-              "no dominating `if overlaps: raise` fed by self._ranges.overlaps(<the range>)")
+    rep.check(bool(over_ok), "C02.5", site, "every returned range passed the overlap test (non-empty overlaps raises)",
+              "no dominating test of self._ranges.overlaps(<the range>) with a raising edge for the non-empty case")
     # explicit address: validated, never reassigned
     stores_addr = [n for n in ast.walk(fi.node) if isinstance(n, ast.Name) and n.id == "addr" and isinstance(n.ctx, ast.Store)]
     lines_in_else = True
@@ -296,23 +309,25 @@ def intervals(rep, idx):
     found = None
     for tst in tests:
         parts = list(tst[1]) if tst[0] == 'and' else [tst]
-        cmps = [p for p in parts if p[0] == 'cmp' and ir.mentions(p, ('name', 'point'))]
+        cmps = [ir.split_neg(p) for p in parts]
+        cmps = [(p, pol) for p, pol in cmps if p[0] == 'cmp' and ir.mentions(p, ('name', 'point'))]
         if len(cmps) == 2:
             found = cmps
     if found is None:
         rep.unk("C02.6", fi.site, "get(): membership test", "no two-sided comparison of the point with a range found")
     else:
+        # canonical order relation is '<' (a <= b is not (b < a)); membership is  not (point < start)  and  point < stop
         ops = {}
-        for p in found:
+        for p, pol in found:
             lhs, rhs = p[2], p[3]
             if lhs == ('name', 'point') and rhs[0] == 'attr':
-                ops[rhs[2]] = ('point', p[1])
+                ops[rhs[2]] = ('point<', pol)
             elif rhs == ('name', 'point') and lhs[0] == 'attr':
-                ops[lhs[2]] = ('range', p[1])
-        good = ops.get('start') == ('range', '<=') and ops.get('stop') == ('point', '<')
+                ops[lhs[2]] = ('<point', pol)
+        good = ops.get('start') == ('point<', False) and ops.get('stop') == ('point<', True)
         nsites += 2
         rep.check(good, "C02.6", fi.site, "get(): start <= point and point < stop (half-open membership)",
-                  f"comparisons found: {[ir.show(p) for p in found]}")
+                  f"comparisons found: {[('' if pol else 'not ') + ir.show(p) for p, pol in found]}")
     rep.count("interval_sites", nsites)
 
 
